@@ -33,10 +33,16 @@ func checkC03(c *Ctx) {
 	c.Rule("C03.R1", "every fold over consecutive vertices visits the right pair set: shoelace sums the full cycle (chain 0..len-2 plus a closing term that is the loop's own summand at (last, first)) behind a short-ring guard; Length/Distance/centroid loops the open chain 0..len-2")
 	c.Rule("C03.R2", "orientation parity: Area results are even (unchanged by reversing rings); Polygon.Centroid/op.Centroid coordinates are even under reversal of all rings; MultiPolygon.Centroid coordinates are even under reversal of any single ring")
 	c.Rule("C03.R3", "MultiPolygon.Area, MultiLineString.Length/Distance fold every member (full range, no skip); Length adds from 0, Distance takes min from +Inf")
+	c.Rule("C03.R5", "axis discipline of the coordinate predicates the measures rely on (hole detection by box and point-in-ring tests, on-segment pre-tests): no comparison relates an X ordinate to a Y ordinate")
+	c.Rule("C03.R4", "point-to-segment distance: at the foot point S + b·(E−S) the projection parameter satisfies 0 ≤ b ≤ 1 on every path (otherwise the end points are returned), and the division producing b has a non-zero divisor (zero-length segments cannot yield NaN)")
 	a := &c03{c: c, ptT: c.P.NamedType("geom", "Point"), summ: map[*types.Func]parity{}, busy: map[*types.Func]bool{}}
 	a.r1()
 	a.r2()
 	a.r3()
+	checkSegmentDistance(c, "C03.R4")
+	checkAxisDiscipline(c, "C03.R5", "geom", "op")
+	c.Floor("C03.R5", 2)
+	c.Floor("C03.R4", 2)
 	c.Floor("C03.R1", 8)
 	c.Floor("C03.R2", 5)
 	c.Floor("C03.R3", 3)
